@@ -13,6 +13,7 @@ R, lambda, Re ... are the spec functions of contracts/spec.py (written from the 
 statement and the documentation).
 """
 import z3
+from fractions import Fraction
 
 from pvc.harness import unit
 from pvc import src as S, kern as K, twin as T, ev as E
@@ -705,3 +706,83 @@ for _g in (False, True):
                 def _a(ctx):
                     _stage(ctx, g, fr, nb)
             _mk5()
+
+
+# ---------------------------------------------------------------------------------------------
+# derived gas result columns: each end's normfactor / velocity follows from THAT end's pressure and temperature
+
+def _gas_result_spec(ctx, comp_2d):
+    ctx.assume("A1", "A3", "A4", "A5")
+    fluid = K.make_fluid(True, comp_2d=comp_2d)
+    TSW = B_FROM_NODE_T_SWITCHED
+    PAMB, TIN = K.const(ND, "PAMB"), K.const(ND, "TINIT")
+    TOUT = K.const(BR, "TOUTINIT")
+    spec = T.ArgSpec([
+        ("net", "obj", dict(make=lambda: K.NetObj({"fluid": fluid}))),
+        ("branch_pit", "pit", dict(rows="b", ncols=NCB, int_cols=INT_B)),
+        ("node_pit", "pit", dict(rows="n", ncols=NCN)),
+        arr("from_nodes", kind="i"), arr("to_nodes", kind="i"),
+        arr("v_mps"), arr("p_from"), arr("p_to")])
+    names = ["v_gas_from", "v_gas_to", "v_gas_mean", "p_abs_from", "p_abs_to", "p_abs_mean",
+             "normfactor_from", "normfactor_to", "normfactor_mean"]
+    for key, tag in ((RX + ":get_branch_results_gas", "numpy"), (RX + ":get_branch_results_gas_numba", "numba")):
+        paths = T.run_paths(ctx, key, spec.build)
+        spec.build()
+        o = spec.objs
+        bp, npit, r = o["branch_pit"], o["node_pit"], spec.r
+        fnode, tnode = o["from_nodes"].f(r), o["to_nodes"].f(r)
+        i = z3.Int("i!req")
+        body = lambda i: z3.And(
+            o["from_nodes"].f(i) >= 0, o["from_nodes"].f(i) < spec.NN, o["to_nodes"].f(i) >= 0, o["to_nodes"].f(i) < spec.NN,
+            z3.ToInt(bp.f(i, B_FROM_NODE)) == o["from_nodes"].f(i), z3.ToInt(bp.f(i, B_TO_NODE)) == o["to_nodes"].f(i),
+            z3.Or(z3.ToInt(bp.f(i, TSW)) == 0, z3.ToInt(bp.f(i, TSW)) == 1),
+            npit.f(o["from_nodes"].f(i), PAMB) + o["p_from"].f(i) > 0, npit.f(o["to_nodes"].f(i), PAMB) + o["p_to"].f(i) > 0)
+        # (the instance at the generic row r is stated explicitly: it spares the solver the instantiation)
+        req = spec.base() + [z3.ForAll([i], z3.Implies(z3.And(i >= 0, i < spec.NB), body(i))), body(r)]
+        ok = len(paths) >= 1 and all(p.exc is None for p in paths)
+        ctx.decided("%s/returns" % tag, "cover", ok, witness=str([str(p.exc) for p in paths]))
+        if not ok:
+            continue
+        pf = V.R(SP.add(npit.f(fnode, PAMB), o["p_from"].f(r)))
+        pt = V.R(SP.add(npit.f(tnode, PAMB), o["p_to"].f(r)))
+        close = z3.If(pf - pt >= 0, pf - pt, pt - pf) <= z3.RealVal("1e-8") + z3.RealVal("1e-5") * z3.If(pt >= 0, pt, -pt)
+        cube = lambda x: SP.mul(x, x, x)
+        sq = lambda x: SP.mul(x, x)
+        # documented mean pressure 2/3 (pf^3 - pt^3) / (pf^2 - pt^2)
+        pm = z3.If(close, pf, V.R(SP.div(SP.mul(Fraction(2, 3), SP.sub(cube(pf), cube(pt))), SP.sub(sq(pf), sq(pt)))))
+        t_in = z3.If(z3.ToInt(bp.f(r, TSW)) == 1, V.R(npit.f(tnode, TIN)), V.R(npit.f(fnode, TIN)))
+        t_out = V.R(bp.f(r, TOUT))
+        tm = V.R(SP.div(SP.add(t_in, t_out), 2))
+        cf = fluid.ufs["compressibility"]
+        comp = (lambda p_, t_: cf(p_, t_)) if comp_2d else (lambda p_, t_: cf(p_))
+        # documented factor p_N T K / (T_N p) (spec.normfactor), built with the same constant-pulling constructors as
+        # the evaluator so that only genuine differences are left to the solver
+        nf = lambda p_, t_: V.R(SP.normfactor(p_, t_, comp(p_, t_)))
+        v = V.R(o["v_mps"].f(r))
+        want = {"p_abs_from": pf, "p_abs_to": pt, "p_abs_mean": pm,
+                "normfactor_from": nf(pf, t_in), "normfactor_to": nf(pt, t_out), "normfactor_mean": nf(pm, tm),
+                "v_gas_from": V.R(SP.mul(v, nf(pf, t_in))), "v_gas_to": V.R(SP.mul(v, nf(pt, t_out))),
+                "v_gas_mean": V.R(SP.mul(v, nf(pm, tm)))}
+        facts = T.all_facts(paths)
+        proved = []
+        for nm in ("p_abs_from", "p_abs_to", "p_abs_mean", "normfactor_from", "normfactor_to", "normfactor_mean",
+                   "v_gas_from", "v_gas_to", "v_gas_mean"):
+            k = names.index(nm)
+            g = z3.And(*[z3.Implies(p.cond(), K.eq_val(T.elem_at(p.result[k], r), want[nm])) for p in paths])
+            # lemma chaining: the columns already proved are valid under req + facts
+            lem = [x for n_, x in proved if (nm.startswith("normfactor") and n_.startswith("p_abs"))
+                   or (nm.startswith("v_gas") and n_ == nm.replace("v_gas", "normfactor"))]
+            if ctx.ob("%s/%s-follows-from-that-end's-state" % (tag, nm), "ensures", req + facts + lem + [pf * pf - pt * pt != 0], g):
+                proved.append((nm, g))
+
+
+@unit("C02", "gas_results/compressibility_1d", functions=[RX + ":get_branch_results_gas", RX + ":get_branch_results_gas_numba",
+                                                         RX + ":get_pressures_numba", RX + ":get_gas_vel_numba"], engine="E2")
+def gas_result_spec_1d(ctx):
+    _gas_result_spec(ctx, False)
+
+
+@unit("C02", "gas_results/compressibility_2d", functions=[RX + ":get_branch_results_gas", RX + ":get_branch_results_gas_numba",
+                                                         RX + ":get_pressures_numba", RX + ":get_gas_vel_numba"], engine="E2")
+def gas_result_spec_2d(ctx):
+    _gas_result_spec(ctx, True)
